@@ -27,6 +27,9 @@ def specs(draw):
     cls = draw(st.sampled_from(["PerturbedDroplet2D", "PerturbedDroplet2D", "PerturbedDroplet3D", "PerturbedDroplet3DAxisSym"]))
     regime = draw(st.sampled_from(["first-order", "first-order", "exact", "large", "sphere"]))
     R0 = gen.r6(10 ** draw(st.floats(-1, 1, **finite)))
+    extreme_unit = draw(st.integers(0, 4)) == 2
+    if extreme_unit:  # very small or very large length units (everything the statement says is scale free)
+        R0 = gen.r6(10 ** draw(st.floats(-7, 7, **finite)))
     if cls == "PerturbedDroplet2D":
         n_amp = draw(st.integers(1, 8))
         dim = 2
@@ -41,6 +44,8 @@ def specs(draw):
         # very long amplitude vectors (mode numbers beyond the order of any fixed quadrature or sampling rule), sparsely filled
         n_amp = draw(st.sampled_from({"PerturbedDroplet2D": [33, 64, 130, 255, 256, 300, 400], "PerturbedDroplet3D": [24, 48, 63, 120], "PerturbedDroplet3DAxisSym": [12, 30, 60]}[cls]))  # (longer 3-D vectors: see the fixed sweep; the library integrates their volume for tens of seconds)
     pos = [gen.r6(draw(st.floats(-5, 5, **finite))) if draw(st.booleans()) else 0.0 for _ in range(dim)]
+    if extreme_unit:
+        pos = [gen.r6(x * R0) for x in pos]  # the centre in the same units (so that differences of coordinates stay resolved)
     if cls == "PerturbedDroplet3DAxisSym":
         pos[0] = pos[1] = 0.0
     # raw amplitude pattern: several simultaneously non-zero modes
